@@ -1,2 +1,3 @@
 -- root of the proof library: one module per property (theorems only) + helper lemmas
 import Proofs.C16
+import Proofs.C14
